@@ -72,8 +72,14 @@ def range_members(rng_addr):
 def gen_case(seed, tier='quick'):
     rng = random.Random(seed)
     faulty = rng.random() < 0.4
-    world = worlds.gen_world(rng, range_names=True,
-                             userfuncs=faulty and rng.random() < 0.5)
+    if rng.random() < 0.15:
+        # the original comes from loading a generated .xlsx workbook
+        from .. import xlsx
+        world = worlds.world_from_workbook(
+            xlsx.gen_workbook(rng), {'seed': rng.randrange(1 << 30)})
+    else:
+        world = worlds.gen_world(rng, range_names=True,
+                                 userfuncs=faulty and rng.random() < 0.5)
     order = world['order']
     inputs = [a for a in order if world['level'][a] == 0]
     formulas = [a for a in order if world['level'][a] > 0]
@@ -217,7 +223,7 @@ def _run(case, fs):
             keep[id(model)] = (model, Evaluator(model, uf.namespace()))
         return keep[id(model)][1]
 
-    if case['knobs'].get('decoy'):
+    if case['knobs'].get('decoy') and world.get('xlsx') is None:
         worlds.run_decoy(world, UserFuncs(None).namespace())
         bump('probe:decoy_model_first')
 
@@ -276,7 +282,8 @@ def _run(case, fs):
             # change, each must still compute from its *own* inputs
             in_scope = who == 'M' or names.get(
                 op['target'], op['target']) in focus_closure
-            if X is not None and not fired and in_scope and any(
+            if X is not None and not fired and in_scope and \
+                    world.get('xlsx') is None and any(
                     inputs['M'].get(a) != inputs['X'].get(a)
                     for a in set(inputs['M']) | set(inputs['X'])):
                 twin = worlds.world_model(world, cells=inputs[who])
@@ -453,6 +460,13 @@ def finding_key(case, viol):
 
 def reducers(case):
     focus = case['focus']
+    if case['world'].get('xlsx') is not None:
+        for i in range(len(focus)):
+            if len(focus) > 1:
+                c = copy.deepcopy(case)
+                del c['focus'][i]
+                yield c
+        return
     for i in range(len(focus)):
         if len(focus) > 1:
             c = copy.deepcopy(case)
